@@ -17,7 +17,10 @@ EXPLANATION = ('Theorems about the Lean model of the tracked-struct table (ident
                'the model\'s own functions (newIdentity, IdentityMap.reuse / drain, update, allocate, newStruct / step, deleteEntity, '
                'readField), comparing disambiguator, idmap hit, update outcome, returned id and generation, tracked-field revisions, '
                'durability, lock word, fresh slot vs FIFO free-list pop, stale list, every delete and free-list push, and evaluating the '
-               'invariant WInv of the theorems (Bool form proved equivalent in Proofs/StructsInv.lean) after every line; (2) by generated '
+               'invariant WInv of the theorems (Bool form proved equivalent in Proofs/StructsInv.lean) after every line; the same histories are '
+               'judged on their REAL results by a property oracle independent of the hooks (ids of one execution pairwise distinct and never '
+               'handed out for another struct, fields read back = values passed to `new`, reader / creator results = reference interpreter, '
+               'struct-keyed memo = reference, same identity in the same order keeps its id), failures shrunk to a replayable history; (2) by generated '
                'seq programs whose results the oracle compares with the reference interpreter, with a monitor that a struct recreated with '
                'the same identity keeps its salsa Id unless the creator dropped it in between.')
 ASSUMPTIONS = ['identity hash is an uninterpreted function in the model (collisions allowed); the driver feeds the traced hash and checks that it is a function of the identity value',
